@@ -227,6 +227,9 @@ func (x *Exec) evalIdent(st *State, id *ast.Ident) *Term {
 		}
 		v, ok := st.vars[o]
 		if !ok {
+			if bv, isBound := x.boundVars[o]; isBound {
+				return bv // quantifier variable used inside old()/entry()
+			}
 			x.unsupported(id, "variable %s not bound", o.Name())
 		}
 		return v
@@ -283,7 +286,12 @@ func (x *Exec) evalSelector(st *State, e *ast.SelectorExpr) *Term {
 			}
 			return cur
 		case types.MethodVal:
-			x.unsupported(e, "method value %s", e.Sel.Name)
+			// a bound method value is an opaque function value
+			x.eval(st, e.X)
+			x.abstracted("method value (opaque function value)")
+			id := x.fresh("methodval", SInt)
+			st.assume(And(Lt(IntLit(0), id), Lt(id, st.alloc)))
+			return id
 		}
 	}
 	// qualified identifier
@@ -363,7 +371,32 @@ func (x *Exec) rangeOf(t types.Type) (lo, hi *big.Int, ok bool) {
 // "overflow" (every + - * carries a fits obligation). Types narrower than 64
 // bits are always wrapped exactly. Specifications use mathematical integers.
 func (x *Exec) arithMode(t types.Type) string {
+	wraps := func(fi *FuncInfo) bool {
+		v, ok := fi.Flags["wrap"]
+		if !ok {
+			return false
+		}
+		if v == "" || v == "true" {
+			return true
+		}
+		// "wrap int64": only the listed types wrap
+		for _, name := range strings.Fields(v) {
+			if b := basicOf(t); b != nil && b.Name() == name {
+				return true
+			}
+		}
+		return false
+	}
 	if x.spec > 0 {
+		// a specification function flagged wrap states two's-complement semantics
+		for i := len(x.frames) - 1; i >= 0; i-- {
+			if x.frames[i].isTop {
+				break
+			}
+			if wraps(x.frames[i].fi) {
+				return "wrap"
+			}
+		}
 		return "math"
 	}
 	if b := basicOf(t); b != nil {
@@ -375,7 +408,7 @@ func (x *Exec) arithMode(t types.Type) string {
 	}
 	for i := len(x.frames) - 1; i >= 0; i-- {
 		fi := x.frames[i].fi
-		if fi.Flag("wrap") {
+		if wraps(fi) {
 			return "wrap"
 		}
 		if fi.Flag("overflow") {
@@ -555,13 +588,13 @@ func (x *Exec) evalBinary(st *State, e *ast.BinaryExpr) *Term {
 		case token.ADD:
 			return x.strConcat(a, b)
 		case token.LSS:
-			return x.app("str.lt", SBool, a, b)
+			return x.app("s.lt", SBool, a, b)
 		case token.GTR:
-			return x.app("str.lt", SBool, b, a)
+			return x.app("s.lt", SBool, b, a)
 		case token.LEQ:
-			return Not(x.app("str.lt", SBool, b, a))
+			return Not(x.app("s.lt", SBool, b, a))
 		case token.GEQ:
-			return Not(x.app("str.lt", SBool, a, b))
+			return Not(x.app("s.lt", SBool, a, b))
 		}
 	case isIntType(opT):
 		switch e.Op {
@@ -684,8 +717,22 @@ func (x *Exec) evalIndex(st *State, e *ast.IndexExpr) *Term {
 			s := x.eval(st, e.X)
 			i := x.eval(st, e.Index)
 			x.oblige(st, "idx", "", And(Le(IntLit(0), i), Lt(i, x.strLen(s))), e)
-			r := x.app("str.at", SInt, s, i)
+			r := x.app("s.at", SInt, s, i)
 			x.axiom(And(Le(IntLit(0), r), Le(r, IntLit(255))))
+			return r
+		}
+	case *types.Array:
+		if ss := x.p.Reg.structOf(bt); ss != nil {
+			a := x.eval(st, e.X)
+			i := x.eval(st, e.Index)
+			x.oblige(st, "idx", "", And(Le(IntLit(0), i), Lt(i, IntLit(u.Len()))), e)
+			if n, ok := i.intVal(); ok && n.IsInt64() && n.Int64() >= 0 && n.Int64() < u.Len() {
+				return getField(ss, a, int(n.Int64()))
+			}
+			r := getField(ss, a, int(u.Len()-1))
+			for k := int(u.Len()) - 2; k >= 0; k-- {
+				r = Ite(Eq(i, IntLit(int64(k))), getField(ss, a, k), r)
+			}
 			return r
 		}
 	case *types.Pointer:
@@ -797,8 +844,8 @@ func (x *Exec) evalSliceExpr(st *State, e *ast.SliceExpr) *Term {
 			hi = x.strLen(s)
 		}
 		x.oblige(st, "idx", "", And(Le(IntLit(0), lo), Le(lo, hi), Le(hi, x.strLen(s))), e)
-		r := x.app("str.sub", SStr, s, lo, hi)
-		x.axiom(Implies(And(Le(IntLit(0), lo), Le(lo, hi)), Eq(x.app("str.len", SInt, r), Sub(hi, lo))))
+		r := x.app("s.sub", SStr, s, lo, hi)
+		x.axiom(Implies(And(Le(IntLit(0), lo), Le(lo, hi)), Eq(x.app("s.len", SInt, r), Sub(hi, lo))))
 		return r
 	}
 	x.unsupported(e, "slice expression on %s", bt)
@@ -845,6 +892,24 @@ func (x *Exec) evalComposite(st *State, e *ast.CompositeLit, t types.Type) *Term
 			return mkSlice(base, IntLit(0), IntLit(0))
 		}
 		return mkSlice(base, IntLit(n), IntLit(n))
+	case *types.Array:
+		if ss := x.p.Reg.structOf(t); ss != nil {
+			vals := make([]*Term, len(ss.Fields))
+			for i, el := range e.Elts {
+				if _, ok := el.(*ast.KeyValueExpr); ok {
+					x.unsupported(e, "keyed array literal")
+				}
+				if i < len(vals) {
+					vals[i] = x.evalElt(st, el, u.Elem())
+				}
+			}
+			for i := range vals {
+				if vals[i] == nil {
+					vals[i] = x.zero(u.Elem())
+				}
+			}
+			return mkStruct(ss, vals)
+		}
 	case *types.Map:
 		ref := x.newMap(st, u, e)
 		for _, el := range e.Elts {
